@@ -28,11 +28,12 @@ HOSTILE_FIXED = [
 # texts of repaired defects, run as they are on a fixed source: F15 (a predicate where a pattern is expected makes a capture that is
 # declared present-once unbound in some matches; reading it panicked), F2 (`$n` outside any scan arm / beyond the groups, lazy mode)
 REGRESSION_TEXTS = [
+    # F15 as found (C05 thorough, text t28787, on the non-ASCII source)
+    ("(assignment left: (_) @l right: (_)? @r) @a {\n  attr ((node)) kind = (source-text @a)\n  node @l.sn\n  node @l.sm\n  let u1 = @r\n}\n"
+     "(assignment left: (_) @l right: (_)? @r) @a {\n  edge (node) -> [4294967295, (named-child-index @a), (start-row [ (node) for c2 in [@l] ])]\n  let u3 = @r\n}\n"
+     "(assignment left: (_) @l right: (#null)? @r) @a {\n  let @a.sm = [\"\", (join [ \"a\" for c4 in [(node)] ] \"/\")]\n  node n5\n  scan (node-type @l) {\n"
+     "    \"b$\" {\n      node g7\n      attr (g7) g0 = $0\n      let @a.sv = #false\n      edge n5 -> n5\n      let v6 = @r\n    }\n  }\n}\n", 10),
     ("(assignment left: (_) @l right: (#null)? @r) @a {\n  let u1 = @l\n  let u2 = @r\n  let u3 = @a\n}\n", 2),
-    ("(assignment left: (_) @l right: (_)? @r) @a {\n  let u1 = @l\n  let u2 = @r\n  let u3 = @a\n}\n"
-     "(assignment left: (_) @l right: (_)? @r) @a {\n  print @l, @r, @a\n}\n"
-     "(assignment left: (_) @l right: (#null)? @r) @a {\n  node n\n  attr (n) l = @l, r = @r, a = @a\n}\n", 2),
-    ("(assignment left: (_) @l right: (#null)? @r) @_a {\n  print @r, @l\n}\n", 10),
     ("(module) @_m {\n  print $1\n}\n", 2),
     ("(module) @_m {\n  scan \"ab\" {\n    \"(a)\" {\n      print $2\n    }\n  }\n}\n", 2),
 ]
